@@ -1282,6 +1282,27 @@ def accepted_upto(src, name, bound, scopes=()):
     return bound
 
 
+def none_error(body):
+    """the error expression that an absent value is turned into: `None => Err(E)` / `None => return Err(E)` / `None => err!(E)` as
+    a match arm, `else { return Err(E) }` of a let-else, or `.ok_or(E)` / `.ok_or_else(|| E)` — the text of E"""
+    found = []
+    for m in re.finditer(r"\bNone\s*=>\s*(?:return\s+)?(?:Err|err!)\s*\(", body):
+        o = m.end() - 1
+        found.append(body[o + 1:close_of(body, o)].strip())
+    for m in re.finditer(r"\.ok_or(_else)?\s*\(", body):
+        o = m.end() - 1
+        inner = body[o + 1:close_of(body, o)].strip()
+        if m.group(1):
+            inner = re.sub(r"^(?:move\s+)?\|\s*\|\s*", "", inner).strip()
+        found.append(strip_block(inner))
+    for m in re.finditer(r"\blet\s+Some\([^=]*=[^;{]*?\belse\s*\{\s*return\s+Err\s*\(", body):
+        o = m.end() - 1
+        found.append(body[o + 1:close_of(body, o)].strip())
+    if len(found) != 1:
+        raise ValueError("expected one None -> Err conversion, found %d" % len(found))
+    return found[0]
+
+
 def branches(body, var):
     """A decision on `var` against string / byte / integer literals, written as an `if var == "a" {A} else if var == "b" {B} else
     {C}` chain (in any order, `"a" == var` too) or as `match var { "a" => A, "b" => B, _ => C }`: {literal text: block text},
